@@ -755,7 +755,7 @@ def spec_requests(ctx, cs):
 def sizes(ctx):
     if ctx.tier == "quick":
         return 225, 3
-    return 5200, 4
+    return 4000, 4
 
 
 def correspond(ctx):
